@@ -80,14 +80,14 @@ CLAIMED = {
         design="§4 C18, §3 E2/E3"),
     "C01": dict(
         level="other",
-        text="Partial, structural: the loop-free decisions around the lexer automaton are decided in every abstract world: pattern priority among completed items (string literal > earlier declaration > later; regular definitions never accept) and its mapping to Accept/Ignore (R01.1); an item moves on a class iff the class lies inside its literal/range, '.' only on the default arm (R01.2); action-table sentinels written = sentinels Scan tests, INVALID = 0 (R01.3); transition-table writer and template: one case per class in order, default iff '.', NoState otherwise (R01.4); the generated Scan loop, plain and debug, as a transfer table (R01.5).",
-        note="NOT decided: that the DFA is the subset construction of the patterns (Closure, Next, Emoves, dependentsClosure, set identity) — graph algorithms over unbounded item sets. Trusted: go/ssa, checker/sx.go, the generated model.",
+        text="Partial, structural: the loop-free decisions around the lexer automaton are decided in every abstract world: pattern priority among completed items (string literal > earlier declaration > later; regular definitions never accept) and its mapping to Accept/Ignore (R01.1); an item moves on a class iff the class lies inside its literal/range, '.' only on the default arm (R01.2); action-table sentinels written = sentinels Scan tests, INVALID = 0 (R01.3); transition-table writer and template: one case per class in order, default iff '.', NoState otherwise (R01.4); the generated Scan loop, plain and debug, as a transfer table (R01.5); every step of the subset construction against the algorithm in doc.go — ItemSets.Closure/Add/Contain, NewItemSet, class and transition slots, Next*, dependentsClosure, the item-list operations (R01.6), the ItemList.Closure step (R01.7), the epsilon-moves helper by helper and the Emoves worklist round (R01.8), and the rune-class partition argument of C18 (R01.9).",
+        note="Two open known findings (D22, D23: regular definitions are shared between use sites, not expanded like macros; printed as KNOWN-FINDING, see DESIGN §5 and findings/). NOT decided: convergence/termination of the construction (steps are decided one at a time). Trusted: go/ssa, checker/sx.go, the generated model.",
         technique="static analysis: decision/transfer-table extraction by finite-world abstract interpretation of SSA (repo code and instantiated templates)",
         design="§4 C01, Appendix A.1"),
     "C02": dict(
         level="other",
-        text="Partial, structural: decides the loop-free decisions between the LR(1) item sets and the running parser, for every combination of their abstract inputs: Item.action = Dragon-book Alg. 4.56 + INVALID column (R02.1); body length assumed by the automaton = NumSymbols popped by the parser (R02.2); every table writer renders each action kind into the right constructor and column, goto cells follow NTType's index (R02.3); the generated Parse loop, in all four debug/zip variants, is the LR driver (R02.4); augmentation and initial item (R02.5). These are necessary conditions of the property: breaking any of them breaks acceptance for some grammar.",
-        note="NOT decided: that FIRST/closure/goto/GetItemSets compute the canonical collection for every grammar, and that Parse terminates — worklist algorithms over unbounded sets are out of reach of a sound static argument here. Trusted: go/ssa, checker/sx.go, the generated model.",
+        text="Partial, structural: decides the loop-free decisions between the LR(1) item sets and the running parser, for every combination of their abstract inputs: Item.action = Dragon-book Alg. 4.56 + INVALID column (R02.1); body length assumed by the automaton = NumSymbols popped by the parser (R02.2); every table writer renders each action kind into the right constructor and column, goto cells follow NTType's index (R02.3); the generated Parse loop, in all four debug/zip variants, is the LR driver (R02.4); augmentation and initial item (R02.5); every step of FIRST, closure, goto and the LR(1) collection is the textbook step (R02.6, R02.7) and the set operations that drive the iterations report membership/growth/equality truthfully, item identity covers everything Item.action reads (R02.8). These are necessary conditions of the property: breaking any of them breaks acceptance for some grammar.",
+        note="NOT decided: convergence of the FIRST/closure/GetItemSets iterations to the least fixed point (each step is decided, the limit is not), and that Parse terminates. Trusted: go/ssa, checker/sx.go, the generated model.",
         technique="static analysis: decision/transfer-table extraction by finite-world abstract interpretation of SSA (repo code and instantiated templates)",
         design="§4 C02, Appendix A.2"),
     "C03": dict(
@@ -98,20 +98,20 @@ CLAIMED = {
         design="§4 C03"),
     "C04": dict(
         level="other",
-        text="The whole reporting chain is decided row by row: the per-state fold records a conflict iff two non-error actions differ (R04.1); both table writers and the plumbing to main preserve exactly the non-empty conflict sets (R04.2); handleConflicts' exit policy incl. accept-conflicts panicking in both modes (R04.3); every os.Exit has a non-zero constant and nothing recovers panics, so status zero means main returned (R04.4).",
-        note="Assumes the item sets are the canonical LR(1) sets (C02, not decided). Trusted: go/ssa, checker/sx.go.",
+        text="The whole reporting chain is decided row by row: the per-state fold records a conflict iff two non-error actions differ (R04.1); both table writers and the plumbing to main preserve exactly the non-empty conflict sets (R04.2); handleConflicts' exit policy incl. accept-conflicts panicking in both modes (R04.3); every os.Exit has a non-zero constant and nothing recovers panics, so status zero means main returned (R04.4); the steps that build the item sets (R04.5 = R02.6-R02.8); the identity under which items are merged depends on every constructor input Item.action depends on (R04.6; found D21).",
+        note="NOT decided: convergence of the item-set iterations (C02). Trusted: go/ssa, checker/sx.go.",
         technique="static analysis: finite-world abstract interpretation of SSA regions + call-site enumeration",
         design="§4 C04"),
     "C06": dict(
         level="other",
-        text="Partial, structural: given a canonical table, the error is exact because (a) reduce entries exist only on the item's exact follow symbol and error cells are nil (Item.action table, cell writers), (b) Parse goes to Error on an empty cell before any reduce, restores the offending token and returns newError, (c) newError carries that token, the top state and exactly the token names with a non-nil cell in index order (all variants), (d) the error type has the stated fields.",
+        text="Partial, structural: given a canonical table, the error is exact because (a) reduce entries exist only on the item's exact follow symbol and error cells are nil (Item.action table, cell writers), (b) Parse goes to Error on an empty cell before any reduce, restores the offending token and returns newError, (c) newError carries that token, the top state and exactly the token names with a non-nil cell in index order (all variants), (d) the error type has the stated fields, (e) the look-ahead computation steps (R06.0e = R02.6-R02.8).",
         note="NOT decided: that rows hold exactly the viable terminals (canonical LR(1) construction, C02). Trusted: go/ssa, checker/sx.go.",
         technique="static analysis: decision-table extraction + loop-body transfer tables of the instantiated parser template",
         design="§4 C06"),
     "C07": dict(
         level="other",
         text="Partial, structural: recovery-state flag = 'an item can shift the error symbol' and its emission (R07.1), one spelling of the error symbol (R07.2), and the generated recovery procedure region by region in every world: firstRecoveryState, popNonRecoveryStates, Error (attribute built from the current token and discarded attributes before skipping; shift of error only if the row has an entry; skip loop discards tokens until one is acceptable or input ends), Parse re-dispatching on the resume token (R07.3/4), all four variants.",
-        note="NOT decided: never panics/loops (the template asserts a shift and panics on an empty cell after recovery), inertness on valid input (needs C02), token conservation across several recoveries. Trusted: go/ssa, checker/sx.go.",
+        note="Error gives up (no panic) when the error column of the state on top holds no shift (found D24). NOT decided: never loops, panic-freedom outside Error, inertness on valid input (needs C02), token conservation across several recoveries. Trusted: go/ssa, checker/sx.go.",
         technique="static analysis: region transfer tables by finite-world abstract interpretation of the instantiated parser template",
         design="§4 C07"),
     "C19": dict(
